@@ -7,9 +7,9 @@ from props import consts_common
 ID = "C17"
 COQ_TARGETS = ["Run/Run_Gossip.vo"]
 META = {
-    "text": "Theorems (Properties/C17.v) over the Gallina model of UpsertLocal/DeleteLocal/LeaveLocal/CompactLocal: for every op list the live entries equal a last-write-wins map, an effective change takes exactly one fresh version and no-ops none, compaction keeps every live key/value in order and drops every tombstone. The model is tied to pkg/gossip/state.go by replaying generated op scripts on the real clusterState and on the model (inside Coq) after every op.",
+    "text": "Theorems (Properties/C17.v) over the Gallina model of UpsertLocal/DeleteLocal/LeaveLocal/CompactLocal: for every op list the live entries equal a last-write-wins map, an effective change takes exactly one fresh version and no-ops none, compaction keeps every live key/value in order and drops every tombstone. The model is tied to pkg/gossip/state.go by replaying generated op scripts on the real clusterState and on the model (inside Coq) after every op. C17_compaction_never_indexes_empty: CompactLocal's index -1 (a panic on a state without entries) is unreachable for every threshold >= 1, in particular for the compactThreshold of the current source (regenerated constants), and is reached with threshold 0 (precondition). Bulk pulls after deletions and a compaction (600+ keys, partly synchronised observer; monitor only).",
     "note": "Trusted: Coq kernel+VM, the hand-written model, the Go harness/translation; versions modelled unbounded; CompactLocal threshold >= 1.",
-    "technique": "Coq proof (induction over op lists, refinement to a map spec) + model/implementation correspondence by differential replay",
+    "technique": "Coq proof (induction over op lists, refinement to a map spec) + model/implementation correspondence by differential replay + translator tie for the compaction threshold and marker (regenerated constants) + bulk-pull probe (monitor only)",
 }
 ASSUMPTIONS = [
     "uint64 versions modelled unbounded (N); a node would need 2^64 local writes to wrap",
